@@ -180,7 +180,7 @@ def directed_C18(tier, seed):
 SPECS = {
     "C11": dict(jobs=jobs_C11, clauses=QUERY_CLAUSES | TRUTH_CLAUSES, level="model_checking", k1=True),
     "C12": dict(jobs=jobs_generic(COMPOSITE, "c12", 50, 500, W=2, alpha="xyz", multi=True),
-                clauses=QUERY_CLAUSES | TRUTH_CLAUSES | SPLIT_CLAUSES, level="model_checking"),
+                clauses=QUERY_CLAUSES | TRUTH_CLAUSES | SPLIT_CLAUSES, level="model_checking", k1c=True),
     "C13": dict(jobs=lambda tier, seed: jobs_generic(REPL_EXACT, "c13", 40, 400, n=10, with_bool=True, pickle=True)(tier, seed)
                 + jobs_generic(APPROX, "c13a", 40, 400, n=4, alpha="approx")(tier, seed)
                 + jobs_generic([["SolverHybrid", {}]], "c13h", 40, 400, n=2, alpha="approx",
@@ -195,7 +195,7 @@ SPECS = {
                 + jobs_generic(COMPOSITE, "c15c", 40, 400, n=8, W=2, alpha="xyz", multi=True)(tier, seed)
                 + [{"mode": "list", "W": 3, "histories": directed_C15(tier, seed)[k::4], "probe": True, "tag": "c15d",
                     "env": {"REUSE_Z3_SOLVER": "1" if k == 3 else "0"}} for k in range(4)],
-                clauses=QUERY_CLAUSES | TRUTH_CLAUSES | SPLIT_CLAUSES, level="model_checking"),
+                clauses=QUERY_CLAUSES | TRUTH_CLAUSES | SPLIT_CLAUSES, level="model_checking", k1c=True),
     "C16": dict(jobs=lambda tier, seed: jobs_generic(TRACKED, "c16", 50, 500, n=10)(tier, seed)
                 + jobs_generic(TRACKED, "c16m", 50, 500, n=6, multi=True)(tier, seed)
                 + [{"mode": "list", "W": 3, "histories": directed_C16(tier, seed)[k::2], "probe": True, "tag": "c16d",
@@ -320,6 +320,120 @@ def explore_cache(tier, seed, budget):
     return stats, hists
 
 
+def composite_alphabet():
+    """constraints / query expressions of spec/SolverComposite.tla's model instance (W = 2; x, y, z) as terms and as the
+    constants handed to TLC; the denotations are recomputed from the terms with Z3's semantics (term.z3_eval)"""
+    from . import term as TM
+    W = 2
+    x, y, z = TM.BVS("x", W), TM.BVS("y", W), TM.BVS("z", W)
+    cons = [TM.T("__eq__", x, TM.BVV(1, W)), TM.T("__eq__", y, x), TM.T("__ne__", z, TM.BVV(0, W)),
+            TM.T("__eq__", x, TM.BVV(2, W)), TM.T("ULT", y, z), TM.BoolV(False)]
+    qs = [x, TM.T("__add__", x, y), z, TM.T("__xor__", y, z)]
+    num = {"x": 1, "y": 2, "z": 3}
+    asg = [{"x": a % 4, "y": (a // 4) % 4, "z": a // 16} for a in range(64)]
+    cden = [sorted(i + 1 for i, a in enumerate(asg) if TM.z3_eval(c, a) == 1) for c in cons]
+    qval = [[TM.z3_eval(q, a) for a in asg] for q in qs]
+    cvars = [sorted(num[v] for v in TM.free_vars(c)) for c in cons]
+    qvars = [sorted(num[v] for v in TM.free_vars(q)) for q in qs]
+    return {"cons": cons, "qs": qs, "cden": cden, "qval": qval, "cvars": cvars, "qvars": qvars, "W": W}
+
+
+def explore_composite(tier, seed, budget):
+    """K1 for SolverComposite: TLC explores spec/SolverComposite.tla (refinement property AnswerStep + five invariants
+    of the child partition); every reachable state x every input becomes one history replayed on the real class, with
+    the model's partition (names registered per child, variables per child, flag) as the expected refined state"""
+    import random
+    import re
+    import shutil
+    import subprocess
+    import tempfile
+    A = composite_alphabet()
+    d = tempfile.mkdtemp(prefix="k1c-", dir=C.scratch())
+    shutil.copy(os.path.join(C.SPEC, "SolverComposite.tla"), d)
+    depth = 4 if tier == "quick" else 5
+    S = lambda xs: "{" + ",".join(map(str, xs)) + "}"            # noqa: E731
+    Q = lambda xs, f: "<<" + ",".join(f(x) for x in xs) + ">>"   # noqa: E731
+    with open(os.path.join(d, "MC.tla"), "w") as f:
+        f.write("---- MODULE MC ----\nEXTENDS SolverComposite\n"
+                f"MC_CVars == {Q(A['cvars'], S)}\nMC_CDen == {Q(A['cden'], S)}\nMC_QVars == {Q(A['qvars'], S)}\n"
+                f"MC_QVal == {Q(A['qval'], lambda r: Q(r, str))}\n====\n")
+    with open(os.path.join(d, "MC.cfg"), "w") as f:
+        f.write(f"CONSTANTS\n NV = 3\n NC = {len(A['cons'])}\n NQ = {len(A['qs'])}\n NA = 64\n MaxDepth = {depth}\n"
+                " CVars <- MC_CVars\n CDen <- MC_CDen\n QVars <- MC_QVars\n QVal <- MC_QVal\n"
+                "SPECIFICATION Spec\nCONSTRAINT Depth\nVIEW view\nPROPERTY AnswerStep\nINVARIANT RegDisjoint\n"
+                "INVARIANT RegWithinVars\nINVARIANT Coverage\nINVARIANT FlagSound\nINVARIANT CheckedSat\n"
+                "CHECK_DEADLOCK FALSE\n")
+    cmd = ["java", "-XX:+UseParallelGC", "-Xmx8g", "-cp", C.TLA_CP, "tlc2.TLC", "-workers", "8", "-noGenerateSpecTE",
+           "-metadir", os.path.join(d, "md"), "-config", "MC.cfg", "-dump", os.path.join(d, "states"), "-coverage", "1",
+           "MC.tla"]
+    p = subprocess.run(cmd, cwd=d, capture_output=True, text=True, timeout=2400)
+    out = p.stdout + p.stderr
+    st = C.tlc_stats(out)
+    if st is None:
+        raise C.MachineryError("SolverComposite exploration failed:\n" + out[-3000:])
+    stats = {"states": st["distinct"], "transitions": st["generated"], "depth": depth, "model_violation": None}
+    if "is violated" in out:
+        stats["model_violation"] = re.findall(r"Error: (.* is violated.*)", out)[:1]
+    for act in ("Add", "Sat", "Eval", "Simplify", "Split"):
+        m = re.search(r"<%s line \d+, col \d+ to line \d+, col \d+ of module SolverComposite[^>]*>: (\d+):(\d+)" % act, out)
+        if not m or int(m.group(2)) == 0:
+            raise C.MachineryError(f"vacuity: action {act} of SolverComposite was never taken")
+    # states: hist + kids + flag
+    states = []
+    rec = re.compile(r"\[[^\[\]]*\]")
+    fld = lambda r, k: [int(x) for x in re.findall(r"\d+", re.search(k + r" \|->\s*\{([^}]*)\}", r).group(1))]  # noqa: E731
+    with open(os.path.join(d, "states.dump")) as f:
+        text = f.read()
+    for block in re.split(r"^State \d+:\s*$", text, flags=re.M)[1:]:
+        # values may be wrapped over several lines: cut the block at the variable headers
+        pos = {v: block.index("/\\ %s = " % v) for v in ("kids", "flag", "added", "hist", "ret")}
+        order = sorted(pos, key=pos.get)
+        val = {}
+        for i, v in enumerate(order):
+            end = pos[order[i + 1]] if i + 1 < len(order) else len(block)
+            val[v] = block[pos[v]:end]
+        states.append({"kids": [(fld(r, "reg"), fld(r, "cs")) for r in rec.findall(val["kids"])],
+                       "flag": "TRUE" in val["flag"],
+                       "hist": [tuple(map(int, t)) for t in re.findall(r"<<(\d+),\s*(\d+)>>", val["hist"])]})
+    shutil.rmtree(d, ignore_errors=True)
+    if len(states) != st["distinct"]:
+        raise C.MachineryError(f"state dump has {len(states)} states, TLC reports {st['distinct']}")
+    name = {1: "x", 2: "y", 3: "z"}
+    nc = len(A["cons"])
+
+    def ivars(i):
+        return A["cvars"][i - 1] if i <= nc else A["qvars"][i - nc - 1]
+
+    def parts(sd):
+        return sorted([sorted(name[v] for v in reg), sorted({name[v] for i in cs for v in ivars(i)})] for reg, cs in sd["kids"])
+
+    def to_op(t):
+        o, a = t
+        if o == 1:
+            return ["add", 0, [A["cons"][a - 1]]]
+        if o == 2:
+            return ["satisfiable", 0, []]
+        if o == 3:
+            return ["eval", 0, A["qs"][a - 1], 5, []]
+        if o == 4:
+            return ["simplify", 0]
+        return ["split", 0]
+
+    inputs = [(1, c) for c in range(1, nc + 1)] + [(2, 0)] + [(3, q) for q in range(1, len(A["qs"]) + 1)] + [(4, 0), (5, 0)]
+    allh = [(sd, i) for sd in states for i in inputs]
+    stats["state_histories"] = len(states)
+    stats["transition_histories"] = len(allh)
+    rng = random.Random(seed)
+    if len(allh) > budget:
+        allh = [allh[i] for i in sorted(rng.sample(range(len(allh)), budget))]
+    stats["replayed"] = len(allh)
+    hists, expect = [], []
+    for sd, i in allh:
+        hists.append([["new", "SolverComposite", {}]] + [to_op(t) for t in sd["hist"]] + [["partition", 0], to_op(i)])
+        expect.append({"parts": parts(sd), "flag": sd["flag"]})
+    return stats, hists, expect
+
+
 def truth_stream(R, pid, tier, seed):
     """C10, solver level: is_true / is_false relative to constraints and extra constraints, on every frontend class incl.
     the VSA-backed ones, after adds / branch / merge / combine / split; only the over-claim clauses are C10's"""
@@ -364,6 +478,14 @@ def check(pid, tier, regen=False):
                 reuse = "1" if k % 4 == 3 else "0"
                 jobs.append({"mode": "list", "W": 2, "alpha": "x1", "histories": part, "probe": True,
                              "tag": f"k1-r{reuse}", "env": {"REUSE_Z3_SOLVER": reuse}})
+    k1c = None
+    if spec.get("k1c"):
+        k1c, hists, expect = explore_composite(tier, seed, 1600 if tier == "quick" else 60000)
+        n = 16
+        for k in range(n):
+            if hists[k::n]:
+                jobs.append({"mode": "list", "W": 2, "alpha": "xyz", "histories": hists[k::n], "expect_parts": expect[k::n],
+                             "probe": True, "tag": "k1c", "env": {"REUSE_Z3_SOLVER": "0"}})
     bad, stats = C.pipeline("w_solver", jobs, "TraceSolver.tla")
     st = C.merge_stats(stats)
     mine = spec["clauses"]
@@ -406,6 +528,29 @@ def check(pid, tier, regen=False):
                        "recorded traces (one step per public call); exploration statistics of the refined spec are "
                        "listed under 'exploration' when the K1 export is part of the tier",
     }
+    if k1c:
+        k1c["partition_checked"] = st.get("partition_checked", 0)
+        k1c["partition_drift"] = st.get("partition_drift", 0)
+        k1c["partition_finer_than_model"] = st.get("partition_finer", 0)
+        k1c["drift_samples"] = [x for s_ in stats for x in s_.get("drift_samples", [])][:3]
+        if k1c["partition_checked"] != k1c["replayed"]:
+            raise C.MachineryError(f"partition observed for {k1c['partition_checked']} of {k1c['replayed']} replayed histories")
+        R.coverage["exploration"] = k1c
+        R.coverage["states"] = k1c["states"]
+        R.coverage["transitions"] = k1c["transitions"]
+        R.coverage["explanation"] = ("states/transitions: TLC exploration of the refined partition model spec/SolverComposite.tla "
+                                     "(refinement property AnswerStep + invariants RegDisjoint, RegWithinVars, Coverage, "
+                                     "FlagSound, CheckedSat) to depth %d; %d of %d state x input histories replayed on the real "
+                                     "class, each followed by the probe battery; after the state's history the partition of "
+                                     "the real object (names per child, variables per child, flag) is compared with the "
+                                     "model's (partition_finer_than_model: Z3's simplification rewrote constraints, which the model does not do; "
+                                     "partition_drift = other disagreements: the model is then not the code; no verdict)"
+                                     % (k1c["depth"], k1c["replayed"], k1c["transition_histories"]))
+        if k1c["model_violation"]:
+            R.notes.append("SPEC-DRIFT: refined model violates %s" % k1c["model_violation"])
+        if k1c["partition_drift"]:
+            R.notes.append("SPEC-DRIFT: %d of %d replayed histories end in a partition other than the model's" %
+                           (k1c["partition_drift"], k1c["partition_checked"]))
     if k1:
         R.coverage["exploration"] = k1
         R.coverage["states"] = k1["states"]
